@@ -401,6 +401,11 @@ def main(argv=None):
                                                                  detail=(res.get('detail') or '')[-300:]))
             else:
                 o['verdict'] = 'unconfirmed_cex'
+                if o['name'] == 'no_exception' and res.get('status') == 'ok':
+                    # the symbolic run raised inside library code but the real code does not: the engine could not execute
+                    # this path (an operation the facade does not model) - nothing on it was checked
+                    harness_errors.append(f"{r['hid']}[{r['case_idx']}]: symbolic execution raised where the real code does not "
+                                          f"({(o.get('info') or {}).get('exc')}: {(o.get('info') or {}).get('msg')}); path not checked")
                 unconfirmed.append(dict(harness=r['hid'], case=r['case'], obligation=o['name'], inputs=o.get('inputs'), funcs=o.get('funcs'), path=path['trace'],
                                         replay_status=res.get('status'), detail=(res.get('detail') or '')[-300:]))
         for c in cands:
